@@ -312,7 +312,7 @@ class AbstractOnlineSpecification(AbstractSpecification):
     def pastify(self):
         if isinstance(self.online_interpreter, AbstractDiscreteTimeOnlineInterpreter) and hasattr(self.pastifier, 'step'):
             # one step of next / s_next lasts one sampling period
-            self.pastifier.step = Fraction(self.online_interpreter.get_sampling_period()) / self.ast.U[self.ast.unit]
+            self.pastifier.step = self.online_interpreter.get_sampling_period_fraction() / self.ast.U[self.ast.unit]
         elif isinstance(self.online_interpreter, AbstractDenseTimeOnlineInterpreter) and hasattr(self.pastifier, 'step'):
             # dense time has no next step: next / s_next are rejected, as without pastify()
             self.pastifier.step = None
